@@ -94,8 +94,29 @@ Definition check_build (v : tval) : bool :=
   let tbl := dec_tbl (vnth 5 v) in
   list_eqb (udp_build (tbl_parse_ip tbl) (vb (vnth 1 v)) (vn (vnth 2 v)) (vb (vnth 3 v))) (vb (vnth 4 v)).
 
+(* ---- kind 4: a history of operations on ONE relay; the observed values are the retained results as they read
+        after the whole history (seq) / after the barrier (conc).  op = [0; host; port; payload; built]
+        | [1; datagram; ok; canon; port; payload] ---- *)
+Definition dec_uop (v : tval) : uop :=
+  if vn (vnth 0 v) =? 0 then UBuild (vb (vnth 1 v)) (vn (vnth 2 v)) (vb (vnth 3 v)) else UParse (vb (vnth 1 v)).
+
+Definition ures_matches (tbl : tbl_t) (m : ures) (v : tval) : bool :=
+  match m with
+  | RBuilt b => (vn (vnth 0 v) =? 0) && list_eqb b (vb (vnth 4 v))
+  | RParsed None => (vn (vnth 0 v) =? 1) && negb (vbool (vnth 2 v))
+  | RParsed (Some (atyp, addr, port, payload)) =>
+    (vn (vnth 0 v) =? 1) && vbool (vnth 2 v) && canon_eqb (canon tbl atyp addr) (dec_canon (vnth 3 v))
+    && (port =? vn (vnth 4 v)) && list_eqb payload (vb (vnth 5 v))
+  end.
+
+Definition check_history (v : tval) : bool :=
+  let ops := vl (vnth 1 v) in
+  let tbl := dec_tbl (vnth 2 v) in
+  all2 (ures_matches tbl) (run_uops (tbl_parse_ip tbl) (map dec_uop ops)) ops.
+
 Definition check (v : tval) : bool :=
   let k := vn (vnth 0 v) in
+  if k =? 4 then check_history v else
   if k =? 0 then check_listener v
   else if k =? 1 then check_adapter v
   else if k =? 2 then check_udp v
